@@ -68,7 +68,10 @@ def oracle(name, ib, mb, meta):
         dd = frame_hdr(b)
         if not (dd and dd['tos'] in (0, 1) and dd['opc'] == 0): continue      # other traffic of the session: not a Hello
         sn = sends_of(b)
-        if len(sn) != 1: fails.append((i, 'Discover answered by %d frames' % len(sn))); continue
+        if len(sn) != 1:
+            # in the generated families every Discover is an acceptable one; a history found by the search may hold refused ones (C03 / C05 judge those)
+            if not meta.get('explored') or len(sn) > 1: fails.append((i, 'Discover answered by %d frames' % len(sn)))
+            continue
         h = hello_fields(sn[0][2])
         if h is None or h['props'] is None: fails.append((i, 'Hello property list does not parse')); continue
         P = {}
@@ -162,3 +165,4 @@ def extra_checks(tier, seed):
         if swept != 16: fails.append('exhaustive sweep of the Linux getters did not complete (%d of 16 parts)' % swept)
     return {'failures': fails, 'evaluations': n + 5 * 2 ** 32, 'distinct': len(distinct) + 2 ** 32, 'exhaustive': True, 'samples': [{'linux': L[1], 'getters': ci[0].status if ci else None}], 'linux_tuples': n,
             'linux_exhaustive': 'LinkSpeed, MediumType, flags, MTU, ifType: all 2^32 values each'}
+EXPLORE = dict(ops=('frame',), mtu=True)
